@@ -125,7 +125,8 @@ def expression_functions(tier, seed):
 
     rng = random.Random(seed)
     ints = [ir.IntegerLiteral(0), ir.IntegerLiteral(1), ir.IntegerLiteral(2), ir.IntegerLiteral(-3), ir.Variable("i"), ir.Variable("j"), ir.ArrayIndex(ir.Variable("p"), ir.IntegerLiteral(1))]
-    floats = [ir.FloatLiteral(0.0), ir.FloatLiteral(1.0), ir.FloatLiteral(2.5), ir.FloatLiteral(1e16), ir.FloatLiteral(-1e16), ir.Variable("x"), ir.Variable("y")]
+    floats = [ir.FloatLiteral(0.0), ir.FloatLiteral(1.0), ir.FloatLiteral(2.5), ir.FloatLiteral(1e16), ir.FloatLiteral(-1e16), ir.FloatLiteral(0.1), ir.FloatLiteral(0.30000000000000004),
+              ir.FloatLiteral(1 / 3), ir.FloatLiteral(123456789.12345678), ir.FloatLiteral(5e-324), ir.FloatLiteral(1.7976931348623157e308), ir.Variable("x"), ir.Variable("y")]
     arith = [ir.Add, ir.Subtract, ir.Multiply]
 
     def num(depth, want_float):
@@ -160,7 +161,7 @@ def expression_functions(tier, seed):
               ir.Declaration(ir.Variable("y"), irt.float), ir.Declaration(ir.Variable("p"), irt.Pointer(irt.integer)), ir.Declaration(ir.Variable("of"), irt.Pointer(irt.float)),
               ir.Declaration(ir.Variable("oi"), irt.Pointer(irt.integer))]
     # hand-picked shapes first: right-nested, mixed, short-circuit guarding an out-of-range read
-    special = [
+    special = [ir.Add(ir.Variable("x"), f) for f in floats[:11]] + [ir.Multiply(f, ir.Variable("x")) for f in floats[:11]] + [ir.Add(ir.IntegerLiteral(v), ir.Variable("i")) for v in (2147483647, -2147483648, 0, -1)] + [
         ir.Add(ir.Variable("x"), ir.Add(ir.Variable("y"), ir.FloatLiteral(1.0))),
         ir.Add(ir.Variable("x"), ir.Subtract(ir.Variable("y"), ir.FloatLiteral(1.0))),
         ir.Multiply(ir.Variable("x"), ir.Multiply(ir.Variable("y"), ir.FloatLiteral(2.5))),
@@ -294,7 +295,7 @@ def expression_differential(report, tier, seed):
                         report.violation(f"expr:{k}:{type(e).__name__}", dict(what=what, expression=repr(e), env=dict(i=i, j=j, x=x, y=y, p=pvals),
                                                                               c_text=ir_to_c(Module([f]))[-300:]), True)
     report.bounded.append(dict(engine="enumerated well-typed IR expression trees: reference IR machine vs real LLVM back end (compile_module) vs printed C compiled by gcc",
-                               bound=f"{len(fns)} trees (13 hand-picked shapes + random trees of depth <= 3 over literals 0,1,2,-3,0.0,1.0,2.5,+-1e16 and typed variables) x {len(envs)} environments",
+                               bound=f"{len(fns)} trees (39 hand-picked shapes incl. every literal spelling class + random trees of depth <= 3 over literals 0,1,2,-3,0.0,1.0,2.5,+-1e16 and typed variables) x {len(envs)} environments",
                                evaluations=evals, distinct_nontrivial=nontrivial, rule="non-trivial = tree with at least one operator, on which the IR machine runs without error", seconds=round(time.time() - t0, 1)))
     return evals
 
